@@ -170,6 +170,18 @@ addenda7 = {'C03': ' The whole suite also for *int, float64 (with -0 and +Inf) a
 for k, v in addenda7.items():
     e = checks[k]
     checks[k] = (e[0], e[1], e[2] + v, e[3], e[4])
+addenda8 = {'C02': ' Decimal strings with an explicit sign and with leading zeros for every lattice value.',
+ 'C04': ' A Sort whose comparator reads the receiver while it runs, and a Sort whose comparator panics half-way (the caller recovers): nothing is disturbed by a failed operation either.',
+ 'C10': ' Callback behaviours that act on the first value of a top-level Publish (after a nested Publish has come and gone); every history also with the subscribers 1 and 2 Map hops behind the publisher the values enter at.',
+ 'C11': ' Subscriptions without OnNext for every combination of handlers: neither the outer effect, the FlatMap function nor the inner effect runs, on any goroutine.',
+ 'C12': ' An actor that also answers Asks: an Ask that times out (reply late or never) between ordinary messages.',
+ 'C16': ' Pool sizes len+7, MaxInt32, MaxInt and MinInt in both order modes (a goroutine explosion ends the execution with a failure: vsched.MaxThreads).',
+ 'C18': ' Requests whose context is cancelled, expired (TimeoutMillisecond: 1) or given up by an interceptor half-way, for all interceptor vectors of length 0..3 over {plain, cancelling, failing} x 5 entry points; interceptor variables that are nil at registration and assigned (or re-assigned, or removed) before the request.',
+ 'C19': ' Transformers that have no key for some records (nil): two records without a key tie on it and later descriptors decide; all lists up to the length bound over 12 symbols x 7 stacks x all directions.',
+ 'C20': ' Every sequence of up to 4 CurryDef.Calls over the argument tuples (), (1), (2,3) x 5 MarkDone thresholds; pattern lists [p], [p,q], [q,p] over all pairs of pattern kinds where the effect of p panics or runs a nested MatchFor that nothing accepts: exactly the first accepting effect is applied and its failure reaches the caller.'}
+for k, v in addenda8.items():
+    e = checks[k]
+    checks[k] = (e[0], e[1], e[2] + v, e[3], e[4])
 
 not_yet = "check not built yet in this round (see DESIGN.md §9 build order); no claim made"
 
